@@ -67,11 +67,11 @@ TrFarkas ==
   /\ Ev.e = "farkas" /\ Step /\ UNCHANGED <<db, tt, dom, run, fr, gv>>
   /\ LET coefs == [i \in DOMAIN Ev.coefs |-> <<Ev.coefs[i].n, Ev.coefs[i].d>>] IN
      Note(IF ~Ev.mon THEN {}
-          ELSE IF ~FarkasShapeOK(tt, Ev.lits, coefs) THEN {V("C26", "explanation and coefficients do not match")}
-          ELSE If(~FarkasPositive(coefs), V("C26", "non-positive coefficient")) \cup
-               If(~FarkasCancels(tt, Ev.lits, coefs), V("C26", "variables do not cancel")) \cup
+          ELSE IF ~FarkasShapeOK(tt, Ev.lits, coefs) THEN {V("C26", [m |-> "explanation and coefficients do not match"])}
+          ELSE If(~FarkasPositive(coefs), V("C26", [m |-> "non-positive coefficient"])) \cup
+               If(~FarkasCancels(tt, Ev.lits, coefs), V("C26", [m |-> "variables do not cancel"])) \cup
                If(FarkasCancels(tt, Ev.lits, coefs) /\ ~FarkasAbsurd(tt, Ev.lits, coefs),
-                  V("C26", "weighted sum is not a false constant inequality")))
+                  V("C26", [m |-> "weighted sum is not a false constant inequality"])))
 
 \* preprocessing
 Drop(f, i) == [j \in { k \in DOMAIN f : k < i } |-> f[j]]
